@@ -10,9 +10,9 @@ META = {
             'the harness) is decompiled with D, the printed labels are collected, the text is recompiled with D and the stored mask bytes are read back. '
             'part 2: statements with 1-3 difficulty switches of 2-8 cases with holes (and nested switches of equal length) under every kind of label are compiled for old ECL; per difficulty d the '
             'emitted copies (mask byte, argument values from the independent layout parser) must satisfy: exactly one copy has bit d iff the switch has a position for d and the label permits it, it '
-            'carries case-values(d), default-on bits equal the label\'s setting. distinct = hash(flag set) / hash(statement, label); non-trivial = set with >= 1 renamed bit / switch with a hole',
+            'carries case-values(d), default-on bits equal the label\'s setting. part 3 (decompile side): harness-written ECL files with runs of look-alike instructions whose masks form partitions, partitions with a gap, overlaps, incomplete covers, differing default-on bits, or that are separated by time labels, are decompiled with difficulty-switch recovery on and recompiled: every instruction must come back with its time, mask and argument. Flag sets may be defined in two layers (second mapfile redefines some flags with the other default; the later definition wins). distinct = hash(flag set) / hash(statement, label); non-trivial = set with >= 1 renamed bit / switch with a hole',
     'assumptions': ['mask enumeration is exhaustive per flag set; flag sets and switch statements are sampled'],
-    'floors': {'masks_checked': 256 * 6, 'flag_sets': 6, 'end_to_end_masks': 256 * 3, 'switch_statements': 150, 'switch_difficulties_checked': 1000},
+    'floors': {'recovery_roundtrips': 200, 'recovered_switches': 30, 'layered_flag_sets': 3, 'masks_checked': 256 * 6, 'flag_sets': 6, 'end_to_end_masks': 256 * 3, 'switch_statements': 150, 'switch_difficulties_checked': 1000},
 }
 SIZES = {'quick': 2000, 'thorough': 40000}
 LANG = {'kind': 'test', 'language': 'ecl', 'int_regs': [], 'float_regs': [], 'game': 'th07'}
@@ -40,6 +40,14 @@ def gen_flagset(r):
         if on: aux |= 1 << b
     return k + ':' + ''.join('%d%s%s' % (b, c, '+' if on else '-') for b, c, on in defs), defs, names, aux
 
+def redefine(r, defs):
+    """A second mapfile that defines some of the same flags again with the other default (the later definition wins)."""
+    if not defs: return [], 0
+    again = [(b, c, not on) for b, c, on in r.sample(defs, r.randint(1, len(defs)))]
+    final = {b: on for b, c, on in defs}
+    final.update({b: on for b, c, on in again})
+    return again, sum(1 << b for b, on in final.items() if on)
+
 def py_parse_label(label, names, aux):
     """Independent parser of a difficulty string WITHOUT '*' (DESIGN.md B.6)."""
     mask = aux; enable = True
@@ -66,7 +74,12 @@ def part1(ctx, r):
     tag, defs, names, aux = gen_flagset(r)
     # duplicate names on two bits are a degenerate definition the docs do not cover: generated, but judged separately
     mf = flagset_text(defs) if defs else None
-    req = {'op': 'diff_labels', 'lang': LANG, 'mapfiles': [mf] if mf else [], 'labels': []}
+    mfs = [mf] if mf else []
+    if defs and r.chance(0.35):
+        again, aux = redefine(r, defs)
+        mfs.append(flagset_text(again)); tag += ' then ' + ''.join('%d%s%s' % (b, c, '+' if on else '-') for b, c, on in again)
+        ctx.count('layered_flag_sets')
+    req = {'op': 'diff_labels', 'lang': LANG, 'mapfiles': mfs, 'labels': []}
     resp = ctx.call(req)
     ctx.evaluations += 1
     replay = {'req': req, 'flagset': tag}
@@ -92,7 +105,7 @@ def part1(ctx, r):
     if r.chance(0.5):
         data = ecl07_with_masks(list(range(256)))
         b = ctx.write('c14.ecl', data); t = os.path.join(ctx.dir, 'c14.txt'); o = os.path.join(ctx.dir, 'c14b.ecl')
-        maps = [ctx.write('c14.map', mf)] if mf else []
+        maps = [ctx.write('c14_%d.map' % k, m) for k, m in enumerate(mfs)]
         d = ctx.cli({'tool': 'ecl', 'cmd': 'decompile', 'game': 'th07', 'in': b, 'out': t, 'maps': maps, 'dopts': {'diff_switches': False}})
         if not d.get('ok'):
             ctx.violation('diff:end-to-end:decompile-fails', str(d.get('diag') or d.get('panic'))[:300], replay); return
@@ -190,11 +203,77 @@ def part2(ctx, r):
     if any(x is None for sw in switches for x in sw): ctx.fp(stmt)
     ctx.sample({'statement': stmt, 'copies': [(hex(i.diff), i.blob.hex()) for i in ins]}, cap=3)
 
+def ecl07_with_instrs(instrs):
+    """PCB ECL file, one sub; instrs: [(time, mask, arg)] all `ins_900(arg)`; written by the harness itself."""
+    body = b''.join(struct.pack('<iHhBBHi', t, 900, 16, 0, m, 0, a) for t, m, a in instrs) + struct.pack('<ihhHH', -1, -1, 12, 0xff00, 0x00ff)
+    sub_off = 4 + 16 * 4 + 4
+    tl = [sub_off + len(body)] + [0] * 15
+    return struct.pack('<HH', 1, 0) + b''.join(struct.pack('<I', x) for x in tl) + struct.pack('<I', sub_off) + body
+
+def part3(ctx, r):
+    """Decompile side: runs of look-alike instructions with arbitrary mask families (what difficulty switches compile to, and near misses)
+    must come back with exactly their masks, times and arguments after decompile (difficulty-switch recovery on) + recompile."""
+    defs = [(i, 'ENHL4567'[i], False) for i in range(8)]
+    if r.chance(0.4): defs = [(i, 'ENHL4FU7'[i], i >= 4) for i in range(8)]
+    aux = sum(1 << b for b, c, on in defs if on)
+    instrs = []; t = 0; a = 0; kinds = []
+    for _ in range(r.randint(1, 3)):
+        k = r.wpick([('partition', 3), ('hole', 2.5), ('overlap', 1), ('incomplete', 1.5), ('aux-differs', 1.5 if aux else 0.5), ('time-inside', 2), ('beyond-lunatic', 1), ('single', 0.7)])
+        kinds.append(k)
+        nd = r.randint(4, 8) if k == 'beyond-lunatic' and not aux else 4
+        cuts = sorted(r.sample(range(1, nd), r.randint(1, min(3, nd - 1))))
+        groups, prev = [], 0
+        for c in cuts + [nd]: groups.append(list(range(prev, c))); prev = c
+        if k == 'hole' and len(groups) >= 2:
+            # one bit migrates to a non-adjacent group, e.g. {0,1} {2,4}: a mask with a gap
+            gi = r.randrange(len(groups)); spare = [b for b in range(8) if b not in sum(groups, []) and not (aux >> b) & 1]
+            if spare and r.chance(0.5): groups[gi] = groups[gi] + [r.pick(spare)]
+            elif len(groups) >= 3 and len(groups[0]) >= 1: groups[-1] = groups[-1] + [groups[0].pop(0)]; groups = [g for g in groups if g]
+        if k == 'overlap' and len(groups) >= 2: groups[1] = groups[1] + [groups[0][-1]]
+        if k == 'incomplete': groups = groups[:-1] if r.chance(0.5) else groups[1:]
+        if k == 'single': groups = [groups[0]]
+        if not groups: continue
+        for gi, g in enumerate(groups):
+            m = sum(1 << b for b in g) | aux
+            if k == 'aux-differs' and gi == len(groups) - 1: m ^= 1 << r.pick([4, 5, 6, 7])
+            if k == 'time-inside' and gi >= 1 and r.chance(0.6): t += r.randint(1, 9)
+            a += 1
+            instrs.append((t, m, a if r.chance(0.85) else instrs[-1][2] if instrs else a))
+        if r.chance(0.5): t += r.randint(0, 5)
+        if r.chance(0.4): a += 1; instrs.append((t, 0xff, a))          # an ordinary instruction between runs
+    data = ecl07_with_instrs(instrs)
+    mp = ctx.write('c14.map', flagset_text(defs) + '!ins_signatures\n900 S\n')
+    b = ctx.write('c14r.ecl', data); tx = os.path.join(ctx.dir, 'c14r.txt'); o = os.path.join(ctx.dir, 'c14r2.ecl')
+    if os.path.exists(o): os.unlink(o)
+    d = ctx.cli({'tool': 'ecl', 'cmd': 'decompile', 'game': 'th07', 'in': b, 'out': tx, 'maps': [mp], 'dopts': {} if r.chance(0.8) else {'blocks': False}})
+    ctx.evaluations += 1
+    replay = {'instrs (time, mask, arg)': instrs, 'mapfile': flagset_text(defs), 'kinds': kinds}
+    if 'panic' in d or 'abort' in d: ctx.inconcl('decompile crash (C16)'); return
+    if not d.get('ok'):
+        ctx.violation('diff:recovery:decompile-fails', str(d.get('diag'))[:300], replay); return
+    text = (ctx.read(tx) or b'').decode(); replay['decompiled'] = text[:2500]
+    c = ctx.cli({'tool': 'ecl', 'cmd': 'compile', 'game': 'th07', 'in': tx, 'out': o, 'maps': [mp]})
+    if 'panic' in c or 'abort' in c: ctx.inconcl('compile crash (C04)'); return
+    if not c.get('ok'):
+        ctx.violation('diff:recovery:recompile-fails:%s' % core.norm_msg(core.headline(c.get('diag', '')))[:50], c.get('diag', '')[:300], replay); return
+    got = [(i.time, i.diff, int.from_bytes(i.blob[:4], 'little', signed=True)) for i in L.parse_ecl06(ctx.read(o), 'th07')['subs'][0]['instrs']]
+    if got != instrs:
+        k = next((j for j in range(min(len(got), len(instrs))) if got[j] != instrs[j]), min(len(got), len(instrs)))
+        ctx.violation('diff:recovery:%s' % ('instruction-count' if len(got) != len(instrs) else ('mask-changed' if got[k][1] != instrs[k][1] else ('time-changed' if got[k][0] != instrs[k][0] else 'argument-changed'))),
+                      'instruction %d was (time, mask, arg) = %s and comes back as %s' % (k, instrs[k] if k < len(instrs) else None, got[k] if k < len(got) else None), replay); return
+    ctx.count('recovery_roundtrips'); ctx.count('recovery_instructions', len(instrs))
+    if ':' in text.split('void', 1)[-1] and '(' in text: pass
+    if any(('(' in ln and ':' in ln.split('(', 1)[1]) for ln in text.splitlines() if 'ins_900' in ln): ctx.count('recovered_switches')
+    for k in kinds: ctx.seen('recovery_mask_families', k)
+    ctx.fp('rec', tuple(instrs))
+
 def run_shard(ctx):
     r = ctx.rng
     n = SIZES[ctx.tier] // ctx.nshards + 1
     for i in range(n):
-        if r.chance(0.3): part1(ctx, r)
+        k = r.random()
+        if k < 0.25: part1(ctx, r)
+        elif k < 0.5: part3(ctx, r)
         else: part2(ctx, r)
 
 def replay(path):
